@@ -835,7 +835,7 @@ impl Node {
     /// destination and origin ids are second and third items respectively.
     fn graph_edge_history(push_state: &mut PushState, _instruction_cache: &InstructionCache) {
         if let Some(pos) = push_state.int_stack.pop() {
-            if pos > 0 {
+            if pos >= 0 {
                  if let Some(graph) = push_state.graph_stack.get_mut(pos as usize) {
                      if let Some(ids) = push_state.int_stack.pop_vec(2) {
                         let origin_id = ids[0] as usize;
